@@ -23,7 +23,7 @@ VARIABLES l,
           mdl,        \* the session table as the specification alone predicts it (never read from the record)
           mT, sT,     \* timeouts read from the automata at construction
           full,       \* last logged full state (before the current event)
-          lastFrame,  \* [ms, s] of the last frame through the frame path (-1: none)
+          lastFrame,  \* << second the last frame of the frame path arrived, second its handling ended >> (-1: none / timer fired)
           lastHello,  \* virtual time of the last periodic Hello on this interface (-1: none)
           lastNi,     \* last (r, Ni) pair of a band event, for monotonicity
           lastIn      \* history: second of the last input to << mapping, session >> automaton (the monitor's own clock,
@@ -35,7 +35,7 @@ NoFull == [ms |-> 0, live |-> {}, es |-> 0, hto |-> 0 - 1, bto |-> 0 - 1, lasttx
 
 TraceInit ==
   /\ l = 1 /\ tbl = {} /\ mdl = {} /\ mT = << 0, 0, 0 >> /\ sT = << 0, 0, 0, 0 >>
-  /\ full = NoFull /\ lastFrame = << 0 - 1, 0 - 1 >> /\ lastHello = 0 - 1 /\ lastNi = << >> /\ lastIn = << 0, 0 >>
+  /\ full = NoFull /\ lastFrame = << 0 - 1, 0 - 1 >> /\ lastHello = 0 - 1 /\ lastNi = << >> /\ lastIn = << 0, 0, 0 >>
 
 Ent(x) == [key |-> x[1], gen |-> x[2], complete |-> x[3] = 1, last |-> x[4]]
 LiveSet(ev) == {Ent(ev.live[i]) : i \in 1..Len(ev.live)}
@@ -114,7 +114,7 @@ TNew ==
   /\ Chk("C16") => TableConsistent(ev)
   /\ tbl' = LiveSet(ev) /\ mdl' = LiveSet(ev) /\ mT' = ev.mT /\ sT' = ev.sT /\ full' = FullOf(ev)
   /\ lastFrame' = << 0 - 1, 0 - 1 >> /\ lastHello' = 0 - 1 /\ lastNi' = << >>
-  /\ lastIn' = << ev.now \div 1000, ev.now \div 1000 >>
+  /\ lastIn' = << ev.now \div 1000, ev.now \div 1000, ev.now \div 1000 >>
   /\ l' = l + 1
 
 (* elapsed time: when the driver forced the public state it also chose last_ts; otherwise the monitor's *)
@@ -123,9 +123,10 @@ TMStep ==
   LET ev == Log[l]
       since == IF ev.forced = 1 THEN ev.l0 ELSE lastIn[1]
   IN /\ ev.e = "mstep"
-     /\ Chk("C14") => ev.s1 \in MappingStep(ev.s0, ev.in, ev.nows - since, mT)
+     /\ Chk("C14") => (ev.s1 \in MappingStep(ev.s0, ev.in, ev.nows - since, mT)
+                        \/ (ev.forced # 1 /\ ev.s1 \in MappingStep(ev.s0, ev.in, ev.nows - lastIn[3], mT)))
      /\ (Primary = "C14" => TLCSet(2, TLCGet(2) \cup {<< "step", ev.s0, ev.in, ev.nows - since >>}))
-     /\ lastIn' = << ev.nows, lastIn[2] >>
+     /\ lastIn' = << ev.nows, lastIn[2], ev.nows >>
      /\ full' = [full EXCEPT !.ms = ev.s1]
      /\ l' = l + 1 /\ UNCHANGED << tbl, mdl, mT, sT, lastFrame, lastHello, lastNi >>
 
@@ -135,7 +136,7 @@ TSStep ==
   IN /\ ev.e = "sstep"
      /\ Chk("C15") => (ev.in \in 0..7 => ev.s1 \in SessionStep(ev.s0, ev.in, ev.nows - since, sT))
      /\ (Primary = "C15" => TLCSet(2, TLCGet(2) \cup {<< ev.s0, ev.in, ev.nows - since >>}))
-     /\ lastIn' = << lastIn[1], ev.nows >>
+     /\ lastIn' = << lastIn[1], ev.nows, lastIn[3] >>
      /\ l' = l + 1 /\ UNCHANGED << tbl, mdl, mT, sT, full, lastFrame, lastHello, lastNi >>
 
 TEStep ==
@@ -181,11 +182,13 @@ TTick ==
       \* "after 30 s without any frame the periodic tick ends the session, clears the charge counter and empties
       \* the session table" - whatever state the engine is in.  The timer a frame armed fires once: between 29 s
       \* and 30 s (sub-second rounding of the two clocks) the record's own timer field says whether it did.
-      \* (the frame flow arms it at the second the frame ARRIVED - before parseFrame may let time pass - plus 30,
-      \* and the tick compares whole seconds: no grey zone)
+      \* The property does not say which instant of a frame's handling "the frame" is: an implementation may arm the
+      \* timer when the frame arrives (the pinned flow does) or when it has been handled (parseFrame may pause 10 ms
+      \* in between). The two differ only when that pause crosses a second boundary; then either is accepted and the
+      \* record's own timer field says which happened.
       mustEnd == had /\ nows - lastFrame[2] >= 30
-      mustNot == had /\ nows - lastFrame[2] <= 29
-      fired == mustEnd
+      mustNot == had /\ nows - lastFrame[1] <= 29
+      fired == had /\ (mustEnd \/ (~mustNot /\ ev.inact = 0))
       survivors == {e \in full.live : ~(nows > e.last + Expiry)}
       \* C13 at the level of the tick: when the block deadline has passed in Pausing the block ends, however
       \* late the tick is: the count follows the formula for the Hellos actually heard (a Hello sent in this
@@ -220,7 +223,7 @@ TTick ==
      /\ Chk("XGLUE") => ev.ctc = CtcAfterTick(full.ctc, full, nows, fired)
      /\ full' = [FullOf(ev) EXCEPT !.cdl = CdlAfterTick(full, nows, fired)] /\ tbl' = LiveSet(ev)
      /\ mdl' = (IF fired THEN {} ELSE TExpire(mdl, nows))
-     /\ lastIn' = (IF ev.ms # full.ms THEN << nows, lastIn[2] >> ELSE lastIn)
+     /\ lastIn' = (IF ev.ms # full.ms THEN << nows, lastIn[2], nows >> ELSE lastIn)
      /\ lastFrame' = (IF fired THEN << 0 - 1, 0 - 1 >> ELSE lastFrame)
      /\ l' = l + 1 /\ UNCHANGED << mT, sT, lastNi >>
 
@@ -293,9 +296,12 @@ TGlue ==
   \* just begun and nothing has been heard in it, whatever was overheard while idle
   /\ Chk("C13") => ((ev.op = OpDiscover /\ full.es = 0 /\ ev.es # 0) => ev.r = << 0, 0 >>)
   \* the frame path feeds the opcode to the mapping engine; leaving an active state empties the table
-  \* (the engine is stepped when the frame ARRIVES, before parseFrame may let time pass: elapsed time and the
-  \* engine's own time stamp are those of now0)
-  /\ Chk("C14") => /\ ev.ms \in MappingStep(full.ms, ev.op, ev.now0 \div 1000 - lastIn[1], mT)
+  \* (the pinned flow steps the engine when the frame ARRIVES, before parseFrame may let time pass; stepping it after
+  \* the frame has been handled is as good an implementation: the elapsed time may be measured between either
+  \* instant of this frame and either instant of the previous one - they differ only across a second boundary)
+  /\ Chk("C14") => /\ \E e \in {ev.now0 \div 1000 - lastIn[1], ev.now0 \div 1000 - lastIn[3],
+                                  ev.now \div 1000 - lastIn[1], ev.now \div 1000 - lastIn[3]} :
+                          ev.ms \in MappingStep(full.ms, ev.op, e, mT)
                    /\ (full.ms # 0 /\ ev.ms = 0) => ev.live = << >>
   /\ (Primary = "C14" => TLCSet(2, TLCGet(2) \cup {<< "glue", full.ms, ev.op, ev.now0 \div 1000 - lastIn[1] >>}))
   /\ Chk("C16") => TableConsistent(ev)
@@ -304,13 +310,13 @@ TGlue ==
   /\ (Primary = "C12" /\ Len(ev.hellos) > 0 => TLCSet(2, TLCGet(2) \cup {l}))
   /\ lastHello' = LastHelloAfter(ev.hellos, lastHello)
   /\ mdl' = MdlAfterGlue(ev)
-  /\ lastFrame' = << ev.now0, ev.now0 \div 1000 >>      \* when the frame arrived (the reply pause of parseFrame comes later)
+  /\ lastFrame' = << ev.now0 \div 1000, ev.now \div 1000 >>      \* arrival / end of handling (the reply pause of parseFrame lies between)
   /\ LET charged == [full EXCEPT !.ctc = IF ev.op = OpCharge THEN (full.ctc + 1) % 256 ELSE full.ctc,
                                   !.cdl = IF ev.op = OpCharge THEN ev.now0 \div 1000 + 1 ELSE full.cdl]
      IN /\ Chk("XGLUE") => ev.ctc = CtcAfterTick(charged.ctc, charged, ev.now \div 1000, FALSE)
         /\ full' = [FullOf(ev) EXCEPT !.cdl = CdlAfterTick(charged, ev.now \div 1000, FALSE)]
   /\ tbl' = LiveSet(ev)
-  /\ lastIn' = << ev.now0 \div 1000, ev.now0 \div 1000 >>
+  /\ lastIn' = << ev.now0 \div 1000, ev.now0 \div 1000, ev.now \div 1000 >>
   /\ l' = l + 1 /\ UNCHANGED << mT, sT, lastNi >>
 
 THeard ==
